@@ -71,6 +71,7 @@ class Interp:
         self.n = 0
         self.setup_entries: Dict[Tuple[int, str], int] = {}  # (instance, setup site) -> entries over the history
         self.stats: Counter = Counter()
+        self.scratch: List[str] = []  # temp files to delete when the history is over
 
     # ------------------------------------------------------------------ helpers
     def _run(self, fn: Any, op_index: int) -> Tuple[Any, Optional[BaseException], sched.Exec]:
@@ -246,8 +247,14 @@ class Interp:
             try:
                 kw_ = self._kw(inst, op.get("sel"))
                 if op.get("bad_cache"):
-                    # a cache file in a directory that does not exist: the nodes run, writing the file then fails
-                    kw_["cache_in"] = os.path.join(os.sep, "nonexistent-vlib-dir", "cache.pkl")
+                    # a cache path whose parent is a regular FILE (tawazi would create missing directories): the nodes
+                    # run, writing the cache then fails with an OSError
+                    import tempfile
+
+                    fd_, blocker = tempfile.mkstemp(prefix="vlib_notadir_")
+                    os.close(fd_)
+                    self.scratch.append(blocker)
+                    kw_["cache_in"] = os.path.join(blocker, "cache.pkl")
                 e = inst.b.dag.executor(**kw_)
             except BaseException as err:  # noqa: BLE001
                 return [("op-raised", f"executor({op.get('sel')}) raised {type(err).__name__}: {err}")]
@@ -270,6 +277,14 @@ class Interp:
             draw_quietly(inst.b.dag, bool(op.get("include_args")))
             return []
         raise ValueError(k)
+
+    def cleanup(self) -> None:
+        for f in self.scratch:
+            try:
+                os.remove(f)
+            except OSError:
+                pass
+        self.scratch = []
 
     def _absorb_setup(self, i: int, inst: Inst, selected: Optional[set], args: List[Any]) -> None:
         """After a run whose nodes all succeeded: the setup results it computed now belong to the instance."""
@@ -322,6 +337,11 @@ class Interp:
         if state.get("cancelled"):
             rec["failed"] = True
             self.stats["cancelled-runs"] += 1
+            return []
+        if rec.get("bad_cache") and isinstance(state.get("exc"), OSError):
+            rec["failed"] = True
+            self.stats["cache-write-failed"] += 1
+            self._absorb_setup(rec["inst"], inst, selected, args)
             return []
         what = f"executor #{op['e']} ({rec['sel']}) run no. 1 with {args} (cancellation came too late)"
         out = self._judge_run(rec["inst"], inst, selected, args, state.get("val"), state.get("exc"), ex, what, sel=rec["sel"])
